@@ -1729,7 +1729,8 @@ class Shim(types.ModuleType):
             i = larr.index_for(N)
             return larr.LArr(N, i, SNum(i), 0, rnp.int64)
         args = [int(a) if isinstance(a, SNum) and a.is_int else a for a in args]
-        return rnp.arange(*args, **kw)
+        r = rnp.arange(*args, **kw)
+        return from_real(r) if core.active() else r
 
     def tile(self, a, reps):
         if _is_larr(a) and isinstance(reps, tuple) and len(reps) == 2 and reps[1] == 1 and a.ndim == 1 and isinstance(reps[0], (int, rnp.integer)):
